@@ -13,6 +13,10 @@ NAN = float('nan')
 # likelihood / prior stubs
 # ---------------------------------------------------------------------------
 
+class InjectedFault(RuntimeError):
+    """a transient failure of the user's likelihood code"""
+
+
 class Likelihood(object):
     """Pure function of the transformed point: L (real), Linf (is it -inf),
     Bl (blob) are uninterpreted functions of the coordinates.  Every call is
@@ -21,6 +25,8 @@ class Likelihood(object):
     def __init__(self, W, blobs=None, vectorized=False):
         self.W, self.blobs, self.vectorized = W, blobs, vectorized
         self.calls = []          # list of points (lists of scalars)
+        self.fail_at = None      # index of the call that raises
+
 
     def value(self, x):
         W = self.W
@@ -33,6 +39,8 @@ class Likelihood(object):
         return self.W.uf('Bl%d' % k, list(x))
 
     def one(self, x):
+        if self.fail_at is not None and len(self.calls) == self.fail_at:
+            raise InjectedFault('transient failure of the likelihood')
         x = [x[i] for i in range(len(x))]
         x = [v.item() if getattr(v, 'shape', None) == () and
              hasattr(v, 'item') else v for v in x]
@@ -139,7 +147,7 @@ def build(W, cfg):
 
     bounds = []
     for i in range(B):
-        if i == 0:
+        if i == 0 and not (cfg.get('first_removed') and explored):
             bounds.append(pkg.basic.UnitCube.compute(d, rng=rng))
         else:
             bounds.append(StubNautilusBound(i, d, token=1))
@@ -211,7 +219,10 @@ def build(W, cfg):
     S.shell_n_eff = np.zeros(B, dtype=float)
     S.shell_log_l = np.zeros(B, dtype=float)
     S.shell_log_v = np.zeros(B, dtype=float)
-    lmin = [-INF] + [W.real('lmin_%d' % i) for i in range(1, B)]
+    # (first_removed: the empty unit-cube shell was dropped when exploration
+    # ended, the first bound is a nautilus bound)
+    lmin = [W.real('lmin_0') if cfg.get('first_removed') and explored
+            else -INF] + [W.real('lmin_%d' % i) for i in range(1, B)]
     S.shell_log_l_min = np.array(lmin, dtype=float) if B > 0 else \
         np.zeros(0)
     # statistics are, by the invariant, what update_shell_info defines
@@ -230,7 +241,7 @@ def in_cube(W, p):
 
 def contains(W, S, k, p):
     """bound k contains point p (as a scalar truth value)."""
-    if k == 0:
+    if type(S.bounds[k]).__name__ == 'UnitCube':
         return in_cube(W, p)
     return S.bounds[k]._contains1(list(p))
 
@@ -244,8 +255,7 @@ def assume_c01(W, S, cfg):
     for i in range(B):
         for p in rows_of(S.points[i]):
             W.assume(in_cube(W, p))
-            if i > 0:
-                W.assume(contains(W, S, i, p))
+            W.assume(contains(W, S, i, p))
             for k in range(i + 1, B):
                 W.assume(~contains(W, S, k, p) if W.symbolic
                          else not contains(W, S, k, p))
@@ -284,7 +294,7 @@ def check_c01(W, S, tag=''):
         for j, p in enumerate(pts):
             W.require(in_cube(W, p), 'C01:in-cube' + tag,
                       'shell %d row %d' % (i, j))
-            if i > 0:
+            if i > 0 or type(S.bounds[0]).__name__ != 'UnitCube':
                 W.require(contains(W, S, i, p), 'C01:own-bound' + tag,
                           'shell %d row %d' % (i, j))
             for k in range(i + 1, len(S.bounds)):
